@@ -296,6 +296,21 @@ func ScaledFamilies(big bool) []Scaled {
 		add(fmt.Sprintf("vars-%d-use", n), b.String()+"print v0+2\n")
 		add(fmt.Sprintf("vars-%d-use2", n), b.String()+"print v0+(2+3)\n")
 	}
+	// every pushing instruction kind exactly at the operand-stack limit
+	for _, n := range []int{1022, 1023, 1024} {
+		var b strings.Builder
+		for i := 0; i < n; i++ {
+			fmt.Fprintf(&b, "var v%d=%d\n", i, i)
+		}
+		for _, atom := range []string{"2", "0", "1", "true", "false", "nil", "v0", `"s"`, "2.5"} {
+			add(fmt.Sprintf("atlimit-%d-%s", n, atom), b.String()+"print "+atom+"\nprint "+atom+" == "+atom+"\n")
+		}
+		add(fmt.Sprintf("atlimit-%d-field", n), b.String()+"def blk \"nm\" { x = 1; eval x; eval x + x; print TYPE; print NAME + TYPE; def in { y = x; print y + x } }\n")
+	}
+	for _, n := range []int{1022, 1023, 1024, 1025} {
+		add(fmt.Sprintf("stackdepth-field-%d", n), "def blk { x = 1; eval "+rep("2+(", n-1)+"x"+rep(")", n-1)+" }")
+		add(fmt.Sprintf("stackdepth-type-%d", n), "def blk { print "+rep("\"a\"+(", n-1)+"TYPE"+rep(")", n-1)+" }")
+	}
 	// block nesting
 	for _, n := range []int{15, 16, 17, 18} {
 		add(fmt.Sprintf("nest-%d", n), rep("def b { ", n)+"x=1"+rep(" }", n))
